@@ -19,7 +19,8 @@ ghost(F_RES, "Resource.__init__", "self._available = capacity", "self.g_held = 0
 # state at the start of a wake-up round (the loop below is also reached inlined from
 # _do_release / Grant.release, so its invariant speaks about this snapshot, not the task's entry state)
 ghost(F_RES, "Resource._wake_waiters", None,
-      "self.g_q0 = list(self._waiters); self.g_total0 = self._available + self.g_held", where="entry")
+      "self.g_q0 = list(self._waiters); self.g_total0 = self._available + self.g_held; self.g_avail0 = self._available",
+      where="entry")
 
 _K = {}     # classes, filled after the repo import (loop contracts are declared before it)
 
@@ -64,36 +65,37 @@ def queue_ok(o):
             (0 <= i) & (i < j) & (j < n), mk_bool(rw_future(o, i)._ref != rw_future(o, j)._ref)), "j"), "i")
 
 
-def served_with_own_amount(o, w):
-    """waiter object w (a _Waiter proxy in state of o) was granted: its future is resolved and carries an
-    unreleased grant of this resource for exactly the requested amount"""
-    f = ObjProxy(field_term(w, "future"), _K["SimFuture"], o._frozen)
-    gref = field_term(f, "g_vref")
-    g = ObjProxy(gref, _K["Grant"], o._frozen)
-    return fut_resolved(f) & mk_bool(field_term(f, "_value") == Any._f("ref", z3.IntSort())(gref)) \
-        & mk_bool(field_term(g, "_amount") == field_term(w, "amount")) \
-        & mk_bool(field_term(g, "_resource") == o._ref) & Not(mk_bool(field_term(g, "_released")))
+def served_now(L):
+    """step clause of the wake-up loop (locals `waiter`, `grant` exist once the body ran): the waiter taken
+    in this iteration was the head of the queue, and its future now carries a fresh unreleased grant of this
+    resource for exactly the amount it asked for"""
+    if not hasattr(L, "grant") or not hasattr(L, "waiter"):
+        return True
+    w, g, f = L.waiter, L.grant, L.waiter.future
+    return mk_bool(z3.SuffixOf(z3.Concat(z3.Unit(w._ref), seq_term(L.self._waiters)), seq_term(L.self.g_q0))) \
+        & f._resolved & mk_bool(field_term(f, "_value") == Any.unwrap(g)) \
+        & (g._amount == w.amount) & same(g._resource, L.self) & Not(g._released)
 
 
 def _wake_inv():
-    def n_woken(L):
-        return slen(L.self.g_q0) - slen(L.self._waiters)
     return [
         ("conserved", lambda L: L.self._available + L.self.g_held == L.self.g_total0),
-        ("available-nonneg", lambda L: L.self._available >= 0),
+        ("available-only-handed-out", lambda L: (L.self._available >= 0) & (L.self._available <= L.self.g_avail0)),
         ("remaining-queue-is-a-suffix-of-arrival-order", lambda L: mk_bool(
             z3.SuffixOf(seq_term(L.self._waiters), seq_term(L.self.g_q0)))),
         ("queue-ok", lambda L: queue_ok(L.self)),
-        ("woken-prefix-served-in-order", lambda L: forall(Int, lambda i: implies(
-            (0 <= i) & (i < n_woken(L)), served_with_own_amount(L.self, rw_at(L.self, i, L.self.g_q0))), "k")),
+        ("taken-waiter-is-the-head-and-gets-a-grant-of-its-amount", served_now),
     ]
 
 
-loop(F_RES, "Resource._wake_waiters", 1, inv=_wake_inv(), modifies=[
+_WAKE_LOOP = loop(F_RES, "Resource._wake_waiters", 1, inv=_wake_inv(), modifies=[
     ("Resource", "_waiters"), ("Resource", "_available"), ("Resource", "_acquisitions"),
     ("Resource", "_peak_utilization"), ("Resource", "_total_wait_time_ns"), ("Resource", "g_held"),
     ("SimFuture", "_resolved"), ("SimFuture", "_value"), ("SimFuture", "g_vref"),
     ("Grant", "_resource"), ("Grant", "_amount"), ("Grant", "_released")])
+# grants are only written by their own constructor inside the loop (pyvc/loops.py fresh_only): grants that
+# exist when the loop starts - in particular the one being released - are untouched
+_WAKE_LOOP.fresh_only = [("Grant", "_resource"), ("Grant", "_amount"), ("Grant", "_released")]
 
 from specs.common import *  # noqa: E402,F401
 
@@ -134,7 +136,7 @@ cls(_res._Waiter, fields={"amount": Real, "future": Ref(SimFuture), "enqueue_tim
 cls(Resource, fields={"_capacity": Real, "_available": Real, "_waiters": Seq(Ref(_res._Waiter)),
                       "_acquisitions": Int, "_releases": Int, "_contentions": Int, "_total_wait_time_ns": Int,
                       "_peak_utilization": Real, "_peak_waiters": Int},
-    ghost={"g_held": Real, "g_q0": Seq(Ref(_res._Waiter)), "g_total0": Real}, const=["_capacity"],
+    ghost={"g_held": Real, "g_q0": Seq(Ref(_res._Waiter)), "g_total0": Real, "g_avail0": Real}, const=["_capacity"],
     inv=[("capacity-positive", lambda o: o._capacity > 0),
          ("never-over-admitted", lambda o: (0 <= o._available) & (o._available <= o._capacity)),
          ("held-plus-available-is-capacity", lambda o: o._available + o.g_held == o._capacity),
@@ -226,9 +228,9 @@ def _head_does_not_fit(o):
 
 _WAKE_POST = [
     ("woken-in-arrival-order", lambda s: mk_bool(z3.SuffixOf(seq_term(s.self._waiters), seq_term(s.old(s.self)._waiters)))),
-    ("every-woken-waiter-granted-its-amount", lambda s: forall(Int, lambda i: implies(
-        (0 <= i) & (i < slen(s.old(s.self)._waiters) - slen(s.self._waiters)),
-        served_with_own_amount(s.self, rw_at(s.self, i, s.old(s.self)._waiters))), "k")),
+    # (that every waiter taken off the queue is the head and receives a grant of its own amount, once, is the
+    #  step obligation `taken-waiter-is-the-head-and-gets-a-grant-of-its-amount` of the loop + the call-site
+    #  obligation `granted-at-most-once` of SimFuture.resolve)
     ("granted-as-soon-as-capacity-allows", lambda s: _head_does_not_fit(s.self)),
 ]
 
